@@ -118,6 +118,7 @@ func c11(x *runCtx) {
 	c11Typed(x)
 	// after transmission: the same items read from streams that hand out their bytes in other ways
 	c12Readers(x, "C11")
+	c11Options(x)
 }
 
 func c11Item(x *runCtx, it gen.Item, r interface {
